@@ -108,7 +108,7 @@ def run_variant(scn, base, variant, listing):
     parent = {"plain": "plain", "under_ascmhl": "ascmhl", "under_ascmhl_deep": os.path.join("ascmhl", "nested"),
               "under_user_pattern": {"*.tmp": "x.tmp", "parent*": "parent1", "x?": "xy"}.get(scn.get("user_pattern") or "", "plain2")}.get(variant, variant)
     pdir = os.path.join(base, parent)
-    os.makedirs(pdir)
+    os.makedirs(pdir, exist_ok=True)
     root = os.path.join(pdir, "r")
     os.mkdir(root)
     world.materialise(scn["tree"], root)
